@@ -7,20 +7,24 @@ Model of `src/conversion/simple.rs` (`SimpleEngine::convert`) and the engine dis
 -/
 namespace Chewing.Conv
 
-/-- one output interval per symbol that no selection intersects; a syllable without a word is shown
-    as its Bopomofo spelling (`sym.to_syllable().unwrap().to_string()`, F30) -/
+/-- the interval pushed for symbol `i`; a syllable without a word is shown as its Bopomofo spelling
+    (`sym.to_syllable().unwrap().to_string()`, F30) -/
+def simpleInterval (d : Dict) (sym : Sym) (i : Nat) : Interval :=
+  match sym with
+  | .chr cp => { start := i, stop := i + 1, isPhrase := false, text := [cp] }
+  | .syl k =>
+    { start := i, stop := i + 1, isPhrase := true,
+      text := match d.first [k] Strategy.standard with
+        | some p => p.text
+        | none => spell k }
+
+/-- `for (i, sym) in comp.symbols().iter().enumerate()`: one output interval per symbol that no
+    selection intersects (`continue` otherwise) -/
 def simpleSingles (d : Dict) (c : Composition) : List (Sym × Nat) → List Interval
   | [] => []
   | (sym, i) :: rest =>
     if c.selections.any (fun sel => sel.intersectRange i (i + 1)) then simpleSingles d c rest
-    else
-      (match sym with
-        | .chr cp => { start := i, stop := i + 1, isPhrase := false, text := [cp] }
-        | .syl k =>
-          { start := i, stop := i + 1, isPhrase := true,
-            text := match d.first [k] Strategy.standard with
-              | some p => p.text
-              | none => spell k }) :: simpleSingles d c rest
+    else simpleInterval d sym i :: simpleSingles d c rest
 
 /-- stable insertion: `x` precedes every element of the sorted tail with start `≥` its own -/
 def insertByStart (x : Interval) : List Interval → List Interval
